@@ -106,11 +106,21 @@ class ResolutionContext:
         """
         Register an error during the current execution.
         """
+        # The same error instance can be raised for several fields or several
+        # requests (module level constant, cached error): locate a copy and
+        # leave the raised instance alone so that every position gets its own
+        # error.
+        located = err.__class__.__new__(err.__class__)
+        located.__dict__.update(err.__dict__)
+        located.args = err.args
+        located.__cause__ = err.__cause__
+        located.__traceback__ = err.__traceback__
+
         if node:
-            if not err.nodes:
-                err.nodes = [node]
-        err.path = path if path is not None else err.path
-        self._errors.append(err)
+            if not located.nodes:
+                located.nodes = [node]
+        located.path = path if path is not None else located.path
+        self._errors.append(located)
 
     @property
     def errors(self) -> List[GraphQLResponseError]:
